@@ -1,5 +1,5 @@
 from .. import facts
-from ..rules import geometry, codec, status
+from ..rules import image, geometry, codec, status
 
 
 def run(ck):
@@ -10,6 +10,7 @@ def run(ck):
     geometry.r3_one_call_per_box(ck, P)
     geometry.r6_clip_offsets(ck, P)
     status.r_byte_budget(ck, P, 'C03-R7')
+    image.r3_early_returns(ck, P)           # C14-R3: a setter that skips an update of the alpha-map origin leaves the composite region stale
     codec.r1_codec(ck, P, ck.tier)          # C03-R4 = C10-R2: partial-byte stores preserve their neighbours
     if ck.tier == 'thorough':
         codec.r1_codec(ck, P, ck.tier, be=True)
